@@ -70,7 +70,7 @@ class Execution:
         self.gw.protocol_version = proto
         node = Node(NODE, 17, proto, sleeping=True)
         for c in (0, 1):
-            node.add_child(c, 6)
+            node.add_child(c, 6, values={0: "reported", 1: "reported"})   # what the node last reported
         self.gw.nodes[NODE] = node
         other = Node(2, 17, proto, sleeping=False)
         other.add_child(0, 6)
@@ -345,6 +345,8 @@ def check(prop: str) -> int:
                 for proto in protos[:1]:
                     ejobs.append((proto, init, {"s1": [(init[0], "s1-1"), (init[0], "s1-2")], "s2": [(init[0], "s2-1")]}, 4000))
                     ejobs.append((proto, init, {"s1": [(init[0], "s1-1")], "s2": [(init[0], "same")], "s3": [(init[0], "same")]}, 4000))
+                    # a sender re-sends exactly the value the node last reported
+                    ejobs.append((proto, init, {"s1": [(init[0], "reported")], "s2": [(init[-1], "s2-1")]}, 4000))
             for part in pool.map(explore, ejobs, chunksize=1):
                 runs.extend(part)
         rep.cov["evaluations"] = len(runs)
